@@ -4,7 +4,7 @@ CONSTANTS FlawShallowListFreeze = FALSE
  FlawAppendSharesCapacity = FALSE
  FlawSortedAliasesOrdered = FALSE
  OnlyTargets = {}
- DeepTargets = {}
+ DeepTargets = {"x", "L", "mk", "A"}
  MaxMut = 3
  DeepVias = {"direct"}
  LastVias = {"alias", "arg", "compr", "loop"}
